@@ -180,6 +180,9 @@ struct upipe_xfer {
     /** refcount of the uprobe remote, used to release upipe_xfer in the main
      * thread */
     struct urefcount urefcount_probe;
+    /** set by the remote thread once it is done with the queue (it may still
+     * be inside uqueue_push() when its last message is popped) */
+    uatomic_uint32_t probe_dead_queued;
 
     /** public upipe structure */
     struct upipe upipe;
@@ -289,7 +292,10 @@ static void upipe_xfer_probe_free(struct urefcount *urefcount_probe)
     if (unlikely(!uqueue_push(&upipe_xfer->uqueue, msg))) {
         upipe_xfer_release_urefcount_real(upipe);
         upipe_xfer_msg_free(upipe->mgr, msg);
+        return;
     }
+    /* must be the very last access of the remote thread to the pipe */
+    uatomic_store(&upipe_xfer->probe_dead_queued, 1);
 }
 
 /** @This allocates and initializes an xfer pipe. An xfer pipe allows to
@@ -337,6 +343,7 @@ static struct upipe *_upipe_xfer_alloc(struct upipe_mgr *mgr,
     upipe_xfer_init_upump(upipe);
     urefcount_init(upipe_xfer_to_urefcount_probe(upipe_xfer),
                    upipe_xfer_probe_free);
+    uatomic_init(&upipe_xfer->probe_dead_queued, 0);
     uprobe_init(&upipe_xfer->uprobe_remote, upipe_xfer_probe, NULL);
     upipe_xfer->uprobe_remote.refcount =
         upipe_xfer_to_urefcount_probe(upipe_xfer);
@@ -365,6 +372,12 @@ static void upipe_xfer_worker(struct upump *upump)
                              struct upipe_xfer_msg *)) != NULL) {
         switch (msg->type) {
             case UPROBE_DEAD:
+                /* the remote thread may not have returned from uqueue_push()
+                 * yet: look at the message again on the next iteration
+                 * rather than freeing the queue under it */
+                if (unlikely(!uatomic_load(&upipe_xfer->probe_dead_queued)) &&
+                    uqueue_push(&upipe_xfer->uqueue, msg))
+                    return;
                 upipe_xfer_release_urefcount_real(upipe);
                 break;
             case UPROBE_XFER_VOID:
@@ -468,6 +481,7 @@ static void upipe_xfer_free(struct upipe *upipe)
     upipe_xfer_clean_upump_mgr(upipe);
     uprobe_clean(&upipe_xfer->uprobe_remote);
     urefcount_clean(&upipe_xfer->urefcount_probe);
+    uatomic_clean(&upipe_xfer->probe_dead_queued);
     upipe_xfer_clean_urefcount_real(upipe);
     upipe_xfer_clean_urefcount(upipe);
     upipe_clean(upipe);
